@@ -427,3 +427,51 @@ func runReuse(c ReuseCase, o *vk.Obs) string {
 	o.ClassIf(len(counts) >= 5, "runs_gave>=5_distinct_counts")
 	return ""
 }
+
+// HugeCase: one counter with a buffer of several hundred thousand elements:
+// Fill distinct values (exact regime when Fill < Size, otherwise the buffer
+// has been halved at least once), Reset, then After distinct values.
+type HugeCase struct {
+	Size  int `json:"size"`
+	Fill  int `json:"fill"`
+	After int `json:"after"`
+}
+
+func runHuge(c HugeCase, o *vk.Obs) string {
+	size := clampSize(c.Size)
+	ctr := distinct.NewCounter[int](size)
+	for v := 0; v < c.Fill; v++ {
+		ctr.Add(v)
+		if v%4096 == 0 || v == c.Fill-1 {
+			if l := ctr.Len(); l > size {
+				return fmt.Sprintf("size %d: after %d distinct values Len = %d exceeds the buffer size", size, v+1, l)
+			}
+			if v+1 < size {
+				if l, n := ctr.Len(), ctr.Count(); l != v+1 || n != uint64(v+1) {
+					return fmt.Sprintf("size %d: after %d distinct values (fewer than the buffer size) Len = %d, Count = %d, want both %d", size, v+1, l, n, v+1)
+				}
+			}
+		}
+	}
+	if l, n := ctr.Len(), ctr.Count(); l > 0 && (n%uint64(l) != 0 || (n/uint64(l))&(n/uint64(l)-1) != 0) {
+		return fmt.Sprintf("size %d: after %d distinct values Count = %d is not Len = %d times a power of two", size, c.Fill, n, l)
+	}
+	ctr.Reset()
+	if l, n := ctr.Len(), ctr.Count(); l != 0 || n != 0 {
+		return fmt.Sprintf("size %d: Reset with %d values buffered leaves Len = %d, Count = %d, want 0, 0", size, min(c.Fill, size), l, n)
+	}
+	after := min(c.After, size-1)
+	for v := 0; v < after; v++ {
+		ctr.Add(-1 - v)
+		ctr.Add(-1 - v/2)
+	}
+	if l, n := ctr.Len(), ctr.Count(); l != after || n != uint64(after) {
+		return fmt.Sprintf("size %d: after Reset and %d distinct values (fewer than the buffer size) Len = %d, Count = %d, want both %d", size, after, l, n, after)
+	}
+	if c.Fill > 1<<18 {
+		o.NonTrivial()
+	}
+	o.ClassIf(c.Fill >= size, "buffer_halved_before_Reset")
+	o.ClassIf(c.Fill > 1<<18, "more_than_2^18_values_buffered_at_Reset")
+	return ""
+}
